@@ -203,20 +203,23 @@ class Compiler:
             c_expr = self._compile(target.expression)
             name = get_target_name(target)
             c_targets.append(EvalTarget(c_expr, name, is_aggregate(c_expr)))
-
-            columns, aggregates = get_columns_and_aggregates(c_expr)
-
-            # Check for mixed aggregates and non-aggregates.
-            if columns and aggregates:
-                raise CompilationError('mixed aggregates and non-aggregates are not allowed')
-
-            # Check for aggregates of aggregates.
-            for aggregate in aggregates:
-                for child in aggregate.childnodes():
-                    if is_aggregate(child):
-                        raise CompilationError('aggregates of aggregates are not allowed')
+            self._check_aggregates(c_expr)
 
         return c_targets
+
+    def _check_aggregates(self, c_expr):
+        """Check the use of aggregates in a target, ORDER BY, or HAVING expression."""
+        columns, aggregates = get_columns_and_aggregates(c_expr)
+
+        # Check for mixed aggregates and non-aggregates.
+        if columns and aggregates:
+            raise CompilationError('mixed aggregates and non-aggregates are not allowed')
+
+        # Check for aggregates of aggregates.
+        for aggregate in aggregates:
+            for child in aggregate.childnodes():
+                if is_aggregate(child):
+                    raise CompilationError('aggregates of aggregates are not allowed')
 
     def _compile_order_by(self, order_by, c_targets):
         """Process an order-by clause.
@@ -274,6 +277,7 @@ class Compiler:
                 # targets to evaluate and index into that new target.
                 if index is None:
                     c_expr = self._compile(column)
+                    self._check_aggregates(c_expr)
 
                     # Attempt to reconcile the expression with one of the existing
                     # target expressions.
@@ -427,6 +431,7 @@ class Compiler:
                 c_expr = self._compile(group_by.having)
                 if not is_aggregate(c_expr):
                     raise CompilationError('the HAVING clause must be an aggregate expression')
+                self._check_aggregates(c_expr)
                 having_index = len(new_targets)
                 new_targets.append(EvalTarget(c_expr, None, True))
                 c_target_expressions.append(c_expr)
